@@ -127,7 +127,30 @@ def gen_own(seed, n):
         else:
             lines.append(c.inst(sec * 10 ** 9))
         admin = c.admin; pending = None; mint = None        # generator's own guess of the state (heuristic only)
+        old_mint = None
         for k in range(rnd.randrange(6, 25)):
+            if old_mint is not None:
+                # the nominee of a RE-nomination tries at the deadline of the earlier nomination: the clock restarted
+                sec = max(sec, old_mint + rnd.choice([0, 0, 1, 3600])); old_mint = None
+                ns = sec * 10 ** 9 + rnd.randrange(10 ** 9)
+                if pending:
+                    if treasury:
+                        lines.append("texec %d %s accept_own" % (ns, hx(pending)))
+                    else:
+                        lines.append("exec %d - %s [] accept_own" % (ns, hx(pending)))
+                    if mint is None or sec >= mint:
+                        admin = pending; pending = None
+                continue
+            if pending and mint is not None and rnd.random() < 0.12:
+                # the admin nominates the SAME pending account again some days later
+                sec += rnd.randrange(86400, 5 * 86400)
+                ns = sec * 10 ** 9 + rnd.randrange(10 ** 9)
+                if treasury:
+                    lines.append("texec %d %s xfer_own %s" % (ns, hx(admin), hx(pending)))
+                else:
+                    lines.append("exec %d - %s [] xfer_own %s" % (ns, hx(admin), hx(pending)))
+                old_mint = mint; mint = sec + week
+                continue
             if mint is not None and rnd.random() < 0.6:
                 target = mint + rnd.choice([-1, 0, 1, -1, 0, week])
                 sec = max(sec, target)
@@ -282,7 +305,10 @@ def gen_treasury(seed, n):
         # versions with build metadata: the same release with metadata and a newer one (both must be refused; semver orders
         # build metadata, so neither is "strictly older")
         for name, ver in [("treasury", "0.4.19"), ("treasury", "0.4.20"), ("treasury", "0.4.21"), ("staking", "0.1.0"), ("treasury", "0.4"), ("treasury", "abc"), ("treasury", "0.3.99"),
-                          ("treasury", "0.4.20+hotfix.1"), ("treasury", "0.4.21+b1")]:
+                          ("treasury", "0.4.20+hotfix.1"), ("treasury", "0.4.21+b1"),
+                          # other contracts whose name merely contains, extends or abbreviates this one's, at an older version
+                          ("crates.io:treasury", "0.4.19"), ("xtreasury", "0.4.18"), ("treasury2", "0.4.19"), ("Treasury", "0.4.19"), ("treasur", "0.4.19"),
+                          ("", "0.4.19"), ("treasury ", "0.4.19")]:
             lines.append("tmig %s %s" % (hx(name), hx(ver)))
     return "\n".join(lines) + "\n", {"histories": n}
 
@@ -497,6 +523,11 @@ def gen_hook(seed, n):
                           b32.addr("osmo", "c%d" % k, 32)])
         pf = rnd.choice(prefixes if rnd.random() < 0.4 else ["osmo"])
         lines.append("fn derive %s %s %s" % (hx(ch), hx(snd), hx(pf)))
+    # the derivation is injective on accepted pairs only because an accepted channel id is exactly channel-<n> (no '/' or
+    # second part in it): the channel check is part of this property
+    for k in range(n // 3):
+        lines.append("fn vchan %s" % hx(rnd.choice([corrupt_channel(rnd), corrupt_channel(rnd), "channel-%d" % rnd.randrange(10 ** 6),
+                                                      "channel-1/x-7", "channel-x-5", "channel-1-2", "channel-1/celestia1abc-3", "channel-/7", "channel-7/"])))
     for k in range(n // 4):
         a = b32.addr(rnd.choice(["osmo", "celestia", "x" * 20]), "d%d" % k, rnd.choice([20, 32, 1, 0, 50]), rnd.choice([1, 1, 0x2bc830a3]))
         lines.append("fn b32dec %s" % hx(rnd.choice([a, a.upper(), corrupt_addr(rnd, a, "osmo"), a[:4] + a[4:].upper()])))
@@ -545,7 +576,7 @@ def gen_migrate(seed, n):
         right = {"0418": "0.4.18", "0420": "0.4.20", "100": "1.0.0"}[layout]
         vers = [right, right, right, "0.4.18", "0.4.20", "1.0.0", "1.1.0", "1.1.1", "2.0.0", "0.4.19", "1.0", "abc", "", "1.0.0-rc1", "01.0.0", "1.0.0 ",
                 "0.4.17", "0.1.0", "0.0.0", "0.4.18-rc.1", "0.4.20-beta", "0.9.9"]
-        names = ["staking", "staking", "staking", "staking", "treasury", "Staking", ""]
+        names = ["staking", "staking", "staking", "staking", "treasury", "Staking", "", "crates.io:staking", "xstaking", "staking2", "stakin", "staking "]
         paths = {"0418": "v0418 %s" % rnd.choice(["0", "1"]),
                  "0420": None,
                  "100": "v100"}
